@@ -11,3 +11,10 @@ Definition c14_ok (c : c14_case) : bool :=
 Definition c14h_case := (list N * list bool)%type.
 Definition c14h_ok (c : c14h_case) : bool :=
   beq_list Bool.eqb (run_accept win_init (fst c)) (snd c).
+
+(* histories through the real receive path: (counter, authentic?) per datagram; a packet that does
+   not authenticate is rejected and leaves the window unchanged (readPacketLocked marks only after a
+   successful open — the ordering itself is C03's model, Packet.read_packet) *)
+Definition c14t_case := (list (N * bool) * list bool)%type.
+Definition c14t_ok (c : c14t_case) : bool :=
+  beq_list Bool.eqb (run_through win_init (fst c)) (snd c).
